@@ -227,26 +227,41 @@ def tmd_cases(draw):
     dl = draw(st.sampled_from(["off", "on", "all"]))
     # wire-fencing cap: unset, the top of the barrier (0.0, a falsy number), or somewhere else above the last wf interface
     cap = draw(st.sampled_from([None, 0.0, 0.0, -0.1, 0.4])) if "wf" in moves else None
-    spec = {"engine": "turtlemd", "cap": cap, "n": 8, "moves": moves, "workers": 1, "steps": N, "seed": draw(SEEDS), "allowmaxlength": True, "n_jumps": draw(st.sampled_from([2, 6])),
-            "maxlength": draw(st.sampled_from([200, 2000])), "delete_old": dl != "off", "delete_old_all": dl == "all", "zeroswap": None}
+    amx = draw(st.sampled_from([True, True, False]))
+    spec = {"engine": "turtlemd", "cap": cap, "n": 8, "moves": moves, "workers": 1, "steps": N, "seed": draw(SEEDS), "allowmaxlength": amx, "n_jumps": draw(st.sampled_from([1, 2, 6])),
+            "maxlength": draw(st.sampled_from([60, 200, 2000])), "delete_old": dl != "off", "delete_old_all": dl == "all", "zeroswap": None}
+    if draw(st.sampled_from([False, False, True])):
+        # a narrow 4-interface layout near the bottom of the well, short length limit: many rejected moves of all kinds
+        spec.update({"interfaces": [-0.99, -0.9, -0.8, 1.0], "n": 4, "moves": draw(st.sampled_from([["sh", "sh", "wf", "sh"], ["sh", "wf", "wf", "sh"], ["sh", "sh", "sh", "wf"]])),
+                     "n_jumps": draw(st.sampled_from([1, 2])), "maxlength": 60, "cap": None})
     return {"spec": spec, "N": N, "points": pts}
 
 
 def body_tmd(rec, c):
     spec, N, pts = c["spec"], c["N"], c["points"]
-    a, cfg_a, res_a = run_chain(spec, [N])
+    if spec["allowmaxlength"]:
+        ref = [N]
+    else:
+        # without allowmaxlength the first restart turns the loaded initial paths into ordinary ones (documented): compare a chain
+        # with a longer chain that shares its first stop
+        ref = [pts[0], N]
+        pts = sorted(set(pts + [min(N - 1, pts[0] + 1 + (N - pts[0]) // 2)]))
+        if pts + [N] == ref:
+            rec.case(key=None, nontrivial=False, classes=["turtlemd:no-longer-chain-possible"])
+            return
+    a, cfg_a, res_a = run_chain(spec, ref)
     b, cfg_b, res_b = run_chain(spec, pts + [N])
     acc = sum(r["stats"].get("accepted", 0) for r in res_a)
     nt = spec["seed"] != 0 and acc >= 2
-    rec.case(key=c, nontrivial=nt, classes=["turtlemd", f"turtlemd:cap={spec['cap']}", "turtlemd:seed0" if spec["seed"] == 0 else "turtlemd:seed!=0", f"turtlemd:accepted>={min(acc, 3)}"],
+    rec.case(key=c, nontrivial=nt, classes=["turtlemd", "turtlemd:straight-vs-chain" if ref == [N] else "turtlemd:chain-vs-chain", f"turtlemd:cap={spec['cap']}", "turtlemd:seed0" if spec["seed"] == 0 else "turtlemd:seed!=0", f"turtlemd:accepted>={min(acc, 3)}"],
              sample={"spec": spec, "split_points": pts, "accepted_moves": acc} if nt and len(rec.samples) < 3 else None)
     dk = diff_keys(a, b)
     if dk:
         k0 = dk[0]
         what = "data-file" if k0 == "data" else ("restart-file" if k0 == "restart.toml" else "live-path-files")
-        rec.check(False, f"C06:turtlemd:restart-chain-differs:{what}", f"[{N}] vs {pts + [N]}; differing: {dk[:6]}; first: {first_diff(a.get(k0), b.get(k0))}\n  spec={spec}")
+        rec.check(False, f"C06:turtlemd:restart-chain-differs:{what}", f"{ref} vs {pts + [N]}; differing: {dk[:6]}; first: {first_diff(a.get(k0), b.get(k0))}\n  spec={spec}")
     if N % 3 == 0:
-        a2, _, _ = run_chain(spec, [N])
+        a2, _, _ = run_chain(spec, ref)
         rec.check(not diff_keys(a, a2), "C06:turtlemd:same-seed-different-run", f"{diff_keys(a, a2)[:5]}")
 
 
